@@ -266,9 +266,13 @@ def load_known(pid):
     return [f for f in data.get("findings", []) if f.get("property") == pid and f.get("kind") == "finding"]
 
 
+_replay_n = [0]
+
+
 def write_replay(pid, seed, payload):
     os.makedirs(os.path.join(OUT, "replay"), exist_ok=True)
-    path = os.path.join(OUT, "replay", f"{pid}-seed{seed}-{int(time.time())}.json")
+    _replay_n[0] += 1
+    path = os.path.join(OUT, "replay", f"{pid}-seed{seed}-{int(time.time())}-{_replay_n[0]}.json")
     json.dump(payload, open(path, "w"), indent=1)
     return path
 
